@@ -644,13 +644,14 @@ type poolModel struct {
 	mode       int // 0 LIFO hit, 1 always miss, 2 fork between miss and every pooled object
 	items      map[*Value][]*pooledObj
 	pooled     map[*Value]*pooledObj // object pointer -> entry while it sits in a pool
+	arrays     map[*Value]*pooledObj // last cell of a backing array owned by a pooled object (one level deep) -> entry
 	violations []string
 	kinds      []string
 	monitor    bool
 }
 
 func newPoolModel() *poolModel {
-	return &poolModel{items: map[*Value][]*pooledObj{}, pooled: map[*Value]*pooledObj{}}
+	return &poolModel{items: map[*Value][]*pooledObj{}, pooled: map[*Value]*pooledObj{}, arrays: map[*Value]*pooledObj{}}
 }
 
 func (m *Machine) poolGet(fr *Frame, pool *Value) Value {
@@ -674,6 +675,11 @@ func (m *Machine) poolGet(fr *Frame, pool *Value) Value {
 		pm.items[pool] = append(append([]*pooledObj{}, items[:pick]...), items[pick+1:]...)
 		if p, ok := it.v.V.(*Value); ok {
 			delete(pm.pooled, p)
+		}
+		for k, o := range pm.arrays {
+			if o == it {
+				delete(pm.arrays, k)
+			}
 		}
 		return it.v
 	}
@@ -706,8 +712,31 @@ func (m *Machine) poolPut(fr *Frame, pool *Value, x IfaceV) {
 			pm.kinds = append(pm.kinds, "double-put:"+x.T.String())
 		}
 		pm.pooled[p] = it
+		// the memory the object owns goes to the pool with it: remember the backing arrays of its slice fields
+		if sv, isStruct := (*p).(StructV); isStruct {
+			for _, f := range sv {
+				if sl, isSlice := f.([]Value); isSlice && cap(sl) > 0 {
+					full := sl[:cap(sl)]
+					pm.arrays[&full[len(full)-1]] = it
+				}
+			}
+		}
 	}
 	pm.items[pool] = append(pm.items[pool], it)
+}
+
+// checkPooledBytes flags a read of bytes whose backing array belongs to an object that currently sits in a pool (the
+// previous owner kept a slice of it: b.Bytes() of a buffer that was put back).
+func (m *Machine) checkPooledBytes(fr *Frame, what string, v Value) {
+	sl, ok := v.([]Value)
+	if !ok || cap(sl) == 0 || !m.pool.monitor {
+		return
+	}
+	full := sl[:cap(sl)]
+	if it := m.pool.arrays[&full[len(full)-1]]; it != nil {
+		m.pool.violations = append(m.pool.violations, fmt.Sprintf("use-after-put: %s reads the memory of %v that was put at %s (caller %s)", what, it.v.T, it.putAt, fr.where()))
+		m.pool.kinds = append(m.pool.kinds, "use-after-put:"+it.v.T.String())
+	}
 }
 
 // checkPooledReceiver flags a method call on an object that currently sits in a pool.
